@@ -418,11 +418,7 @@ where
 
 pub fn run(cfg: &Cfg) -> Report {
     let mut rep = Report::new("C12");
-    if cfg.replay.is_some() {
-        rep.stats.inconclusive("C12 replay: the failing type and value are named in the replay file; re-run the check (all types are re-examined in < 10 s)".into());
-        rep.stats.evaluations = 1;
-        return rep;
-    }
+    // replay: the failing type and value are named in the replay file; every type is re-examined (a second or two)
     let s = parallel(cfg, 1, |t| {
         let mut i = 0u64;
         macro_rules! ty {
